@@ -49,6 +49,48 @@ func c11Certificate() tls.Certificate {
 	return c11Cert
 }
 
+// c11CertKind, when set, replaces the certificate of the "certs" configuration by one that is outside its validity
+// period ("expired", "not-yet-valid") or by such a one followed by the regular one: certificates ARE configured, so the
+// upgrade is offered and everything behind the 'S' is encrypted all the same (whether the client accepts such a
+// certificate is the client's business).
+var c11CertKind string
+
+var c11OddCerts = map[string]tls.Certificate{}
+
+func c11CertOf(kind string) []tls.Certificate {
+	mk := func(from, to time.Time) tls.Certificate {
+		k := fmt.Sprint(from.Unix(), to.Unix())
+		if c, ok := c11OddCerts[k]; ok {
+			return c
+		}
+		key, err := ecdsa.GenerateKey(elliptic.P256(), rand.Reader)
+		if err != nil {
+			panic(err)
+		}
+		tmpl := &x509.Certificate{SerialNumber: big.NewInt(2), Subject: pkix.Name{CommonName: "verif"}, NotBefore: from, NotAfter: to,
+			KeyUsage: x509.KeyUsageDigitalSignature, ExtKeyUsage: []x509.ExtKeyUsage{x509.ExtKeyUsageServerAuth}, DNSNames: []string{"verif"}}
+		der, err := x509.CreateCertificate(rand.Reader, tmpl, tmpl, &key.PublicKey, key)
+		if err != nil {
+			panic(err)
+		}
+		c := tls.Certificate{Certificate: [][]byte{der}, PrivateKey: key}
+		if strings.HasSuffix(kind, "with-leaf") {
+			c.Leaf, _ = x509.ParseCertificate(der)
+		}
+		c11OddCerts[k] = c
+		return c
+	}
+	switch strings.TrimSuffix(kind, "-with-leaf") {
+	case "expired":
+		return []tls.Certificate{mk(time.Unix(0, 0), time.Date(2001, 1, 1, 0, 0, 0, 0, time.UTC))}
+	case "not-yet-valid":
+		return []tls.Certificate{mk(time.Date(2098, 1, 1, 0, 0, 0, 0, time.UTC), time.Date(2099, 1, 1, 0, 0, 0, 0, time.UTC))}
+	case "expired-then-not-yet-valid":
+		return []tls.Certificate{mk(time.Unix(0, 0), time.Date(2001, 1, 1, 0, 0, 0, 0, time.UTC)), mk(time.Date(2098, 1, 1, 0, 0, 0, 0, time.UTC), time.Date(2099, 1, 1, 0, 0, 0, 0, time.UTC))}
+	}
+	return []tls.Certificate{c11Certificate()}
+}
+
 type c11Letter struct {
 	Name  string
 	Bytes []byte
@@ -87,6 +129,9 @@ func c11Server(rec *script.Rec, cfg string, limit ...int) (*harness.One, error) 
 		opts = append(opts, wire.TLSConfig(&tls.Config{Certificates: make([]tls.Certificate, 0, 4)}))
 	case "certs":
 		cfg := &tls.Config{Certificates: []tls.Certificate{c11Certificate()}}
+		if c11CertKind != "" {
+			cfg.Certificates = c11CertOf(c11CertKind)
+		}
 		if len(limit) > 2 {
 			cfg.ClientAuth = tls.ClientAuthType(limit[2])
 		}
@@ -658,6 +703,27 @@ func c11Enumerate(tier string, emit explore.Emit) {
 		for _, b := range []string{"plaintext-instead", "second-ssl", "cancel-after"} {
 			c := c11Case{Cfg: cfg, Behave: b, Hist: []c11Letter{letters[0]}}
 			emit(explore.Case{Family: "tls", Size: 1, Desc: func() any { return c.String() }, Run: func() explore.Result { return c11Run(c) }})
+		}
+	}
+	// certificates outside their validity period are configured certificates
+	for _, kind := range []string{"expired", "not-yet-valid", "expired-then-not-yet-valid", "expired-with-leaf", "not-yet-valid-with-leaf"} {
+		for _, b := range []string{"ssl-handshake", "ssl+stuffed", "ssl-surplus-body", "plaintext-instead", "second-ssl", "cancel-after"} {
+			for _, auth := range []string{"", "good", "bad"} {
+				if auth != "" && b != "ssl-handshake" {
+					continue
+				}
+				kind := kind
+				c := c11Case{Cfg: "certs", Behave: b, Hist: []c11Letter{letters[0]}, Auth: auth}
+				emit(explore.Case{Family: "tls", Size: 2,
+					Desc: func() any { return map[string]any{"case": c.String(), "configured_certificates": kind} },
+					Run: func() explore.Result {
+						c11CertKind = kind
+						defer func() { c11CertKind = "" }()
+						r := c11Run(c)
+						r.Key = kind + "/" + r.Key
+						return r
+					}})
+			}
 		}
 	}
 	// start-up packets the server turns away, over TLS, after a refused SSLRequest and in plaintext
